@@ -82,6 +82,11 @@ def generate(rng, tier):
                 if JC.hasfloat(v) or any(JC.adjacent_pair(s) for s in JC.strings_of(v)):
                     continue
                 ops.append("s" + JC.canon(v))
+            elif r < 0.55 and ops:
+                # a nested value changed in place (a cart that grows): same keys, one nested container larger
+                def cart():
+                    return {"cart": ["apple"] * rng.randrange(0, 4), "prefs": {"n": rng.randrange(3)}, "k": rng.choice([1, "x"])}
+                ops += ["s" + JC.canon(cart()), rng.choice(["w", "h"]), rng.choice(["n", "n", "s"]) + JC.canon(cart())]
             else:
                 ops.append(rng.choice(["w", "h", "h", "d"]))
         ops.append("h")
@@ -146,6 +151,26 @@ def untok_secret(t):
     return unhx(t[1:]).decode() if t[0] == "s" else unhx(t[1:])
 
 
+def into(old, new):
+    """make `old` equal to `new` by changing it in place wherever the container types agree (the nested ones too);
+    -> the object that now holds the value"""
+    if isinstance(old, dict) and isinstance(new, dict):
+        for k in [k for k in old if k not in new]:
+            del old[k]
+        for k, v in new.items():
+            old[k] = into(old[k], v) if k in old else v
+        return old
+    if isinstance(old, list) and isinstance(new, list):
+        del old[len(new):]
+        for i, v in enumerate(new):
+            if i < len(old):
+                old[i] = into(old[i], v)
+            else:
+                old.append(v)
+        return old
+    return new
+
+
 def to_model(case):
     t = case.split()
     if t[1] == "jb":
@@ -154,7 +179,8 @@ def to_model(case):
         # the model is given the key stream `hidden` derives from the secret: sha512 of its (UTF-8) bytes
         secret = untok_secret(t[2])
         raw = secret if isinstance(secret, bytes) else secret.encode("utf-8")
-        return ["C13 cookie %s %s" % (hashlib.sha512(raw).hexdigest(), " ".join(t[3:]))]
+        # (`n<value>`: the data reach that value by changes made in place, nested containers included - the same to the model)
+        return ["C13 cookie %s %s" % (hashlib.sha512(raw).hexdigest(), " ".join("s" + o[1:] if o[0] == "n" else o for o in t[3:]))]
     return [] if t[1] == "rt" else [case]
 
 
@@ -241,6 +267,8 @@ def observe(case):
                     outs.append(sess.cookie["SESSID"].value)
                 elif op == "d":
                     sess.destroy()
+                elif op.startswith("n"):
+                    sess.data = into(sess.data, JC.from_canon(op[1:]))
                 else:
                     v = JC.from_canon(op[1:])
                     if isinstance(sess.data, dict) and isinstance(v, dict) and op.startswith("u"):
@@ -305,7 +333,7 @@ def oracle(case):
         from poorwsgi.session import PoorSession
         want = {}
         for op in t[3:]:
-            if op[0] == "s":
+            if op[0] in "sn":
                 want = JC.from_canon(op[1:])
         last = observe(case).split("|")[-1]
         s2 = PoorSession(untok_secret(t[2]), compress=None)
